@@ -93,3 +93,27 @@ prop("C02", level="exploration", runtime=True,
                  "of the specification (lemmas).",
      assumptions=["dominance verdicts come from the comparator proved in C01"],
      not_decided=["fast_nondominated_sorting for populations larger than the explored bound"])
+prop("C08", level="proof", runtime=True,
+     assumptions=["A1: arithmetic over the reals; A5: pow is an uninterpreted function with the sign / unit-interval facts of x**y "
+                  "for x >= 0; random.random() in [0,1), random.uniform(a,b) between a and b",
+                  "parameters have bounds lb < ub (the operators divide by ub - lb); distribution indices >= 0; "
+                  "non-uniform mutation: 0 <= iteration <= max_iterations, max_iterations > 0, perturbation >= 0",
+                  "parent1.__class__(v) is modelled as Individual(v)",
+                  "heap-dependent spec functions keep their value on pre-existing arguments when a loop only adds objects (footprint)"],
+     not_decided=["design-of-experiment generators (LHS, Halton, uniform grid, ...): see C12; only gen_vector / gen_number "
+                  "(RandomGenerator's source of numbers) is proved",
+                  "'every design evaluated during a run': the steps are proved (generate, mutators, SBX, update_position, "
+                  "gen_vector re-rolls) but their orchestration in NSGAII / EpsMOEA / OMOPSO / SMPSO / PSOGA.run is a bounded "
+                  "run-time check on real runs (objective records every vector it is handed)",
+                  "exact float rounding of clip results (clip returns one of its arguments, so it is exact) vs. gen_number's 1e-12 rounding: over the reals"])
+prop("C09", level="other", runtime=True,
+     explanation="Partial. Proved deductively: GeneticAlgorithm.generate returns exactly max_population_size pairwise different, "
+                 "unevaluated children inside the box (population sizes >= 2); Selector.pop_acceptance keeps the size of the "
+                 "working population and follows the stated replacement rule; nondominated_truncate never keeps a design that is "
+                 "worse (front, crowding) than one it cuts (C03); each design of a batch is evaluated exactly once, also under "
+                 "transient failures (C05/C06). NOT proved: the run loops that compose these steps (generation tags, N*G and "
+                 "N*(G+1) budgets, elitism across generations): they are evaluated on real runs of all four algorithms over small "
+                 "configurations with and without injected transient failures (bounded).",
+     assumptions=["as C03, C05, C08 for the step functions"],
+     not_decided=["NSGAII.run, EpsMOEA.run, OMOPSO.run, SMPSO.run as wholes: bounded run-time contracts only",
+                  "termination of generate() (partial correctness)"])
